@@ -35,7 +35,8 @@ const (
 var scopes = []string{"openid", "profile", "email"}
 
 type attempt struct {
-	name, state, verifier string
+	name, state, verifier   string
+	pkceCookie, stateCookie string // the cookie values the RP minted for this attempt
 }
 
 type tokenRequest struct {
@@ -55,6 +56,7 @@ type World struct {
 	byName    map[string]*attempt
 	tokenReqs []tokenRequest
 	appCalls  []string // states handed to the application callback
+	errCalls  []string // states handed to the application's error handler
 	unauth    int
 
 	jar map[string]map[string]string // browser -> cookie name -> value
@@ -91,6 +93,12 @@ func NewWorld(pkce bool, rng *rand.Rand) *World {
 			w.mu.Unlock()
 			http.Error(rw, desc, http.StatusUnauthorized)
 		})}
+	opts = append(opts, rp.WithErrorHandler(func(rw http.ResponseWriter, r *http.Request, errorType, errorDesc, state string) {
+		w.mu.Lock()
+		w.errCalls = append(w.errCalls, state)
+		w.mu.Unlock()
+		http.Error(rw, errorType, http.StatusBadRequest)
+	}))
 	if pkce {
 		opts = append(opts, rp.WithPKCE(w.ch))
 	}
@@ -179,7 +187,7 @@ func (w *World) StartLogin(a M) M {
 	q := loc.Query()
 	state := q.Get("state")
 	w.mu.Lock()
-	at := &attempt{name: fmt.Sprintf("t%d", len(w.attempts)+1), state: state}
+	at := &attempt{name: fmt.Sprintf("t%d", len(w.attempts)+1), state: state, pkceCookie: w.jar[b]["pkce"], stateCookie: w.jar[b]["state"]}
 	w.attempts[state] = at
 	w.byName[at.name] = at
 	w.mu.Unlock()
@@ -219,6 +227,16 @@ func (w *World) Callback(a M) M {
 		state = ""
 	}
 	q := url.Values{"code": {"code-123"}}
+	if e, _ := a["err"].(bool); e {
+		// the provider reports an error instead of a code
+		q = url.Values{"error": {"access_denied"}, "error_description": {"the user said no"}}
+	}
+	if tamper == "replayPkceAsState" {
+		// the state parameter is the verifier of that attempt: what the attempt's pkce cookie decodes to
+		if at, ok := w.byName[att]; ok && at.verifier != "" {
+			state = at.verifier
+		}
+	}
 	if state != "" {
 		q.Set("state", state)
 	}
@@ -261,12 +279,24 @@ func (w *World) Callback(a M) M {
 		if v, ok := cookies["state"]; ok && len(v) > 3 {
 			cookies["state"] = v[:len(v)-3]
 		}
+	case "replayPkceAsState":
+		// the cookies that attempt att received (whether or not they were used since): its pkce cookie under BOTH names
+		delete(cookies, "state")
+		delete(cookies, "pkce")
+		if at, ok := w.byName[att]; ok {
+			if at.pkceCookie != "" {
+				cookies["state"], cookies["pkce"] = at.pkceCookie, at.pkceCookie
+			} else if at.stateCookie != "" {
+				// an attempt without PKCE: its state value minted under the RP's key for the other cookie name
+				cookies["state"] = w.encode(w.ch, "pkce", at.state)
+			}
+		}
 	}
 	for k, v := range cookies {
 		r.AddCookie(&http.Cookie{Name: k, Value: v})
 	}
 	w.mu.Lock()
-	n0, c0, u0 := len(w.tokenReqs), len(w.appCalls), w.unauth
+	n0, c0, u0, e0 := len(w.tokenReqs), len(w.appCalls), w.unauth, len(w.errCalls)
 	w.mu.Unlock()
 	rec, pnc := serve(w.callback, r)
 	if pnc != "" {
@@ -297,6 +327,12 @@ func (w *World) Callback(a M) M {
 		o["class"] = "exchanged"
 		o["stateToApp"] = "other"
 		if at, ok := w.attempts[w.appCalls[len(w.appCalls)-1]]; ok {
+			o["stateToApp"] = at.name
+		}
+	case len(w.errCalls) > e0:
+		o["class"] = "errorHandled"
+		o["stateToApp"] = "other"
+		if at, ok := w.attempts[w.errCalls[len(w.errCalls)-1]]; ok {
 			o["stateToApp"] = at.name
 		}
 	case w.unauth > u0 || rec.Code == http.StatusUnauthorized:
@@ -354,7 +390,7 @@ func Replay(in, out string, seed int64, nRandom, depth int) (lines int, err erro
 			}
 		}
 	}
-	tampers := []string{"asis", "asis", "asis", "dropState", "dropPkce", "otherKey", "swapNames", "truncate", "otherKeyPkce"}
+	tampers := []string{"asis", "asis", "asis", "dropState", "dropPkce", "otherKey", "swapNames", "truncate", "otherKeyPkce", "replayPkceAsState", "replayPkceAsState"}
 	forms := []string{"exact", "exact", "exact", "exact", "prefix", "suffix", "empty"}
 	for i := 0; i < nRandom; i++ {
 		pk := rng.Intn(3) != 0
@@ -382,7 +418,7 @@ func Replay(in, out string, seed int64, nRandom, depth int) (lines int, err erro
 					}
 				}
 			}
-			a := M{"b": b, "att": att, "form": forms[rng.Intn(len(forms))], "tamper": tampers[rng.Intn(len(tampers))]}
+			a := M{"b": b, "att": att, "form": forms[rng.Intn(len(forms))], "tamper": tampers[rng.Intn(len(tampers))], "err": rng.Intn(5) == 0}
 			emit(M{"op": "Callback", "run": id, "step": s + 1, "args": a, "out": w.Callback(a)})
 		}
 	}
